@@ -38,7 +38,72 @@ type Eng struct {
 	specErrors   []string
 	ghosts       map[string]*ghostFieldInfo
 	funcIndex    map[string]*ssa.Function
+	globalInfo   map[*ssa.Global]*globalFact
 }
+
+// globalFact: what is known about a package-level variable that is only ever assigned by its package's
+// initialiser (checked over the whole loaded program).
+type globalFact struct {
+	immutable  bool
+	nonNilErr  bool
+	constInit  *ssa.Const
+}
+
+func (e *Eng) globalFactOf(g *ssa.Global) *globalFact {
+	if e.globalInfo == nil {
+		e.globalInfo = map[*ssa.Global]*globalFact{}
+		stores := map[*ssa.Global][]*ssa.Store{}
+		escaped := map[*ssa.Global]bool{}
+		for fn := range ssautil.AllFunctions(e.prog) {
+			if fn.Pkg == nil || !e.inModule(fn.Pkg.Pkg.Path()) {
+				continue
+			}
+			for _, b := range fn.Blocks {
+				for _, in := range b.Instrs {
+					if st, ok := in.(*ssa.Store); ok {
+						if gg, ok := st.Addr.(*ssa.Global); ok {
+							stores[gg] = append(stores[gg], st)
+						}
+					}
+					for _, op := range in.Operands(nil) {
+						if gg, ok := (*op).(*ssa.Global); ok {
+							switch x := in.(type) {
+							case *ssa.UnOp, *ssa.DebugRef:
+							case *ssa.Store:
+								if x.Addr != gg {
+									escaped[gg] = true
+								}
+							default:
+								escaped[gg] = true // address taken or passed on
+							}
+						}
+					}
+				}
+			}
+		}
+		for gg, ss := range stores {
+			gf := &globalFact{}
+			e.globalInfo[gg] = gf
+			if escaped[gg] || len(ss) != 1 || ss[0].Parent().Name() != "init" || ss[0].Parent().Pkg != gg.Pkg {
+				continue
+			}
+			gf.immutable = true
+			switch v := ss[0].Val.(type) {
+			case *ssa.Call:
+				if f := v.Common().StaticCallee(); f != nil && nonNilErrorFuncs[f.String()] {
+					gf.nonNilErr = true
+				}
+			case *ssa.Const:
+				gf.constInit = v
+			}
+		}
+	}
+	if gf, ok := e.globalInfo[g]; ok {
+		return gf
+	}
+	return &globalFact{}
+}
+
 
 func loadProgram(repo string, patterns []string) (*Loaded, error) {
 	cfg := &packages.Config{Mode: packages.LoadAllSyntax | packages.NeedModule, Dir: repo, BuildFlags: []string{"-tags=verif"}, Env: os.Environ()}
@@ -212,26 +277,57 @@ func (e *Eng) verifyFunc(fn *ssa.Function, sp *FuncSpec, known *knownFindings) *
 		default:
 			bindResults(binds, sig, Tuple(results))
 		}
-		ecx := &evalCtx{fr: fr, run: r, st: exit, old: r.entry, binds: binds, pkg: cx.pkg}
 		r.cover(exit, "cover", "returns", "some execution returns normally", "true")
-		for i, c := range sp.Ensures {
-			f, err := ecx.boolExpr(c.Expr)
-			if err != nil {
-				e.bindError(sp, c, err)
+		// one proof goal per return path and clause (kept as parts of one named obligation)
+		type retCtx struct {
+			ecx *evalCtx
+			st  *State
+		}
+		var rcs []retCtx
+		for _, ri := range fr.returns {
+			if ri.st.dead || ri.st.reach == "false" {
 				continue
 			}
-			o := r.oblige(exit, "ensures", labelOr(c, i), c.Text, f)
-			o.replay = &replayInfo{results: results}
-			o.clause = c
-			if kf := known.match(o); kf != nil {
-				if ex, err := ecx.boolExpr(kf.except); err == nil {
-					o.exceptObl = &Obligation{Name: o.Name + "[except]", Kind: o.Kind, Func: o.Func, Text: c.Text + " unless " + kf.exceptText,
-						prefixLen: o.prefixLen, goal: implies(exit.reach, or(ex, f)), run: r}
-				} else {
-					e.specErrors = append(e.specErrors, fmt.Sprintf("known finding %s: except clause does not bind: %v", kf.obligation, err))
+			b2 := map[string]Val{}
+			for k, v := range fr.params {
+				b2[k] = v
+			}
+			switch len(ri.results) {
+			case 0:
+			case 1:
+				bindResults(b2, sig, ri.results[0])
+			default:
+				bindResults(b2, sig, Tuple(ri.results))
+			}
+			rcs = append(rcs, retCtx{&evalCtx{fr: fr, run: r, st: ri.st, old: r.entry, binds: b2, pkg: cx.pkg, useVars: true, varsAfter: true}, ri.st})
+		}
+		for i, c := range sp.Ensures {
+			parent := &Obligation{Name: r.oblName(sp.Name + ":ensures:" + labelOr(c, i)), Kind: "ensures", Func: sp.Name, Text: c.Text, run: r, clause: c}
+			kf := known.match(parent)
+			ok := true
+			for _, rc := range rcs {
+				f, err := rc.ecx.boolExpr(c.Expr)
+				if err != nil {
+					e.bindError(sp, c, err)
+					ok = false
+					break
 				}
+				part := &Obligation{Name: parent.Name, Kind: "ensures", Func: sp.Name, Text: c.Text, prefixLen: len(r.script), goal: implies(rc.st.reach, f), run: r, clause: c}
+				if kf != nil {
+					if ex, err := rc.ecx.boolExpr(kf.except); err == nil {
+						part.exceptObl = &Obligation{Name: parent.Name + "[except]", Kind: "ensures", Func: sp.Name, Text: c.Text + " unless " + kf.exceptText,
+							prefixLen: len(r.script), goal: implies(rc.st.reach, or(ex, f)), run: r}
+					} else {
+						e.specErrors = append(e.specErrors, fmt.Sprintf("known finding %s: except clause does not bind: %v", kf.obligation, err))
+					}
+				}
+				parent.parts = append(parent.parts, part)
+			}
+			if ok {
+				r.obls = append(r.obls, parent)
 			}
 		}
+		_ = binds
 	} else if len(sp.Ensures) > 0 {
 		r.warn("%s: no normal return is reachable", fn.Name())
 	}
@@ -259,4 +355,47 @@ func (r *Run) sortedWarnings() []string {
 	}
 	sort.Strings(w)
 	return w
+}
+
+// verifyLemma: a lemma is a ghost function without body; its statement is one SMT query per ensures clause
+// over symbolic parameters and a symbolic heap.
+func (e *Eng) verifyLemma(lm *Lemma) *Run {
+	sp := &FuncSpec{Name: lm.Pkg + ".lemma." + lm.Name, Pkg: lm.Pkg, Requires: lm.Requires, Ensures: lm.Ensures, Loops: map[int]*LoopSpec{}}
+	r := &Run{eng: e, spec: sp, heapSort: map[string]string{}, heapInit: map[string]string{}, warnings: map[string]bool{},
+		abstracted: map[string]bool{}, inlined: map[string]bool{}, assumed: map[string]bool{}, oblNames: map[string]int{}, ghostUF: map[string]bool{}}
+	st := &State{reach: "true", env: map[ssa.Value]Val{}, heaps: map[string]string{}, vars: map[string]Val{}}
+	r.emit("(declare-const frontier!0 Int)")
+	r.assumeGlobal("(> frontier!0 0)")
+	st.frontier = "frontier!0"
+	r.entry = st
+	binds := map[string]Val{}
+	cx := &evalCtx{run: r, st: st, old: st, binds: binds, pkg: e.typesPkg(lm.Pkg)}
+	for _, p := range lm.Params {
+		t, err := cx.resolveType(p.Type)
+		if err != nil {
+			e.specErrors = append(e.specErrors, fmt.Sprintf("lemma %s: %v", lm.Name, err))
+			return r
+		}
+		tv := r.freshOf(st, "in_"+p.Name, t)
+		binds[p.Name] = tv
+		r.inputs = append(r.inputs, inputVar{p.Name, tv})
+	}
+	for _, c := range lm.Requires {
+		f, err := cx.boolExpr(c.Expr)
+		if err != nil {
+			e.bindError(sp, c, err)
+			continue
+		}
+		r.assume(st, f)
+	}
+	r.cover(st, "cover", "requires", "lemma premise is satisfiable", "true")
+	for i, c := range lm.Ensures {
+		f, err := cx.boolExpr(c.Expr)
+		if err != nil {
+			e.bindError(sp, c, err)
+			continue
+		}
+		r.oblige(st, "lemma", labelOr(c, i), c.Text, f)
+	}
+	return r
 }
